@@ -93,7 +93,17 @@ func c20text(g *zsim.Stream) string {
 		s := []byte(valid[g.Draw(7)])
 		i := g.Draw(len(s))
 		ch := "abdefgilnoprstuw s"[g.Draw(18)]
-		switch g.Draw(5) {
+		switch g.Draw(6) {
+		case 5:
+			// one letter replaced by a non-ASCII character whose code point has
+			// that letter (in either case) as its low byte
+			rs := []rune(string(s))
+			base := rune(rs[i])
+			if g.Chance(2) {
+				base -= 32
+			}
+			rs[i] = base + []rune{0x100, 0x200, 0x400, 0x1000, 0x10100}[g.Draw(5)]
+			return string(rs)
 		case 0:
 			s = append(s, ch)
 		case 1:
